@@ -144,7 +144,7 @@ def run_live(desc, out):
 
         def absorb():
             for c in ex.calls[shadow_upto[0] :]:
-                if not c["answered"]:
+                if not c["answered"] or c.get("memo_hit"):
                     continue
                 cname = c.get("_client")
                 if c["kind"] == "PLACE":
